@@ -70,13 +70,13 @@ func (f *JSONParse) Call(s *slip.Scope, args slip.List, depth int) (result slip.
 	if ok {
 		cb = func(j any) {
 			inst := flavor.MakeInstance().(*flavors.Instance)
-			inst.Any = j
+			inst.Any = fixNumbers(j)
 			channel <- inst
 		}
 	} else {
 		cb = func(j any) {
 			inst := flavor.MakeInstance().(*flavors.Instance)
-			inst.Any = j
+			inst.Any = fixNumbers(j)
 			_ = caller.Call(s, slip.List{inst}, d2)
 		}
 	}
